@@ -1,6 +1,7 @@
 package rules
 
 import (
+	"fmt"
 	"go/token"
 	"strings"
 
@@ -478,6 +479,10 @@ func runC17(p *core.Prog, r *core.Report) {
 			r5.Check(okc, core.FuncName(sfn)+"#return", p.InstrPos(ret), "return on close only", "the flush scheduler can stop while the cache is still open: nothing is flushed afterwards")
 		}
 	}
+	// R8 batches partition the round
+	r8 := r.Rule("C17.R8", "flushScheduler cuts the sorted address list into consecutive batches: when the list is re-based for the next batch after a hand-over that already contained the current address the new start is the NEXT index, and only a hand-over made before the current address was added re-bases at the current index (otherwise every later batch lags by one and the round's last address is never handed over, yet stays marked as in flight)", 2)
+	schedulerBatchesPartition(p, r, r8)
+	r.Explain += " (R8) the scheduler's batches are sub-slices of the round's address list; each empty re-base `list[k:k]` is at k = i+1 on the path where the current address i has been handled, and at k = i only where it has not: together with R4/R5 every address of a round reaches a worker."
 	// R6 put-time and recount-time sizes are sizes of the same thing
 	r6 := r.Rule("C17.R6", "put accounts len(data) and the recount on open accounts the length of each file (FSTree.IterateSizes): the cache's own tree is therefore configured to write one plain file per object (combined-write count limit below 2), so a file's length is its object's length", 1)
 	cacheFilesArePlain(p, r, r6)
@@ -799,4 +804,88 @@ func batchElementsAllWritten(p *core.Prog, r *core.Report, h *core.RuleH) {
 	}
 	h.Check(!reachesAvoiding(head, head, stop, skipEdge), core.FuncName(fn)+"#every-element", p.Pos(fn.Pos()), "every element with bytes is appended or the call fails",
 		"an iteration over the batch can end without the element being handed to the writer (and without failing the call): PutBatch then returns nil for a batch it has not fully written, and the write-cache deletes the skipped object, the only copy of data the metabase lists as available")
+}
+
+func schedulerBatchesPartition(p *core.Prog, r *core.Report, h *core.RuleH) {
+	fn := p.Func(wcT + ".flushScheduler")
+	if fn == nil {
+		r.Fatalf("C17.R8: flushScheduler not found")
+		return
+	}
+	// the flag 'current address already added to the batch'
+	isHandled := func(v ssa.Value) bool {
+		phi, ok := v.(*ssa.Phi)
+		return ok && phi.Comment == "handledAddr"
+	}
+	handledEdge := func(b *ssa.BasicBlock, want bool) bool {
+		for _, blk := range fn.Blocks {
+			ifi, ok := blk.Instrs[len(blk.Instrs)-1].(*ssa.If)
+			if !ok || !isHandled(ifi.Cond) {
+				continue
+			}
+			s := blk.Succs[0]
+			if !want {
+				s = blk.Succs[1]
+			}
+			if len(s.Preds) == 1 && (s == b || s.Dominates(b)) {
+				return true
+			}
+		}
+		return false
+	}
+	n := 0
+	for _, b := range fn.Blocks {
+		for _, in := range b.Instrs {
+			sl, ok := in.(*ssa.Slice)
+			if !ok || sl.Low == nil || sl.High == nil || sl.Max != nil {
+				continue
+			}
+			if phi, isPhi := sl.X.(*ssa.Phi); !isPhi || phi.Comment != "sortedAddrs" {
+				continue
+			}
+			// an empty re-base: low and high are the same index expression
+			same := sl.Low == sl.High
+			if bl, isB := sl.Low.(*ssa.BinOp); isB && !same {
+				if bh, isH := sl.High.(*ssa.BinOp); isH && bl.Op == bh.Op && bl.X == bh.X {
+					kl, okl := intConstOf(bl.Y)
+					kh, okh := intConstOf(bh.Y)
+					same = okl && okh && kl == kh
+				}
+			}
+			if !same {
+				continue
+			}
+			n++
+			// the loop index itself is `rangeindex-phi + 1` in SSA; the next index is that plus one
+			isIdx := func(v ssa.Value) bool {
+				bo, isB := v.(*ssa.BinOp)
+				if !isB || bo.Op != token.ADD {
+					return false
+				}
+				phi, isPhi := bo.X.(*ssa.Phi)
+				k, isK := intConstOf(bo.Y)
+				return isPhi && phi.Comment == "rangeindex" && isK && k == 1
+			}
+			next := false
+			if bo, isB := sl.Low.(*ssa.BinOp); isB && bo.Op == token.ADD && isIdx(bo.X) {
+				if k, isK := intConstOf(bo.Y); isK && k == 1 {
+					next = true
+				}
+			}
+			if !next && !isIdx(sl.Low) {
+				h.Bad(fmt.Sprintf("%s#re-base@%d", core.FuncName(fn), n), p.InstrPos(in), "the address list is re-based at an index that is neither the current one nor the next")
+				continue
+			}
+			key := fmt.Sprintf("%s#re-base@%d", core.FuncName(fn), n)
+			if next {
+				h.Check(handledEdge(b, true), key, p.InstrPos(in), "re-based behind the current address where it has been handed over", "the list is re-based at the next index on a path where the current address has not been added to a batch yet: that address is skipped")
+			} else {
+				h.Check(handledEdge(b, false), key, p.InstrPos(in), "re-based at the current address where it has not been handed over yet",
+					"after a hand-over the address list is re-based at the CURRENT index also on the path where the current address was part of the batch just sent: the next batch starts with it again, every later batch of the round lags by one and the last address is never handed to a worker (it stays in the in-flight set and is skipped by every later round)")
+			}
+		}
+	}
+	if n == 0 {
+		h.Bad(core.FuncName(fn)+"#re-base", p.Pos(fn.Pos()), "no re-base of the address list found in the scheduler")
+	}
 }
